@@ -16,6 +16,7 @@ import (
 	"syscall"
 	"testing"
 	"time"
+	"unsafe"
 
 	"github.com/criyle/go-sandbox/pkg/forkexec"
 	"github.com/criyle/go-sandbox/pkg/mount"
@@ -41,6 +42,41 @@ type c04Case struct {
 	Names      bool // HostName / DomainName
 	WorkDir    bool
 	CgroupFd   bool
+	// capabilities missing from the *launcher's* effective set while it starts the child (a service with a trimmed
+	// capability set): the launch may be refused, but a program that does start must still be in the requested state
+	LauncherDrop []int `json:",omitempty"`
+}
+
+// c04Caps: the capabilities the launch sequence itself needs at one point or another.
+var c04Caps = map[int]string{1: "DAC_OVERRIDE", 6: "SETGID", 7: "SETUID", 8: "SETPCAP", 18: "SYS_CHROOT", 21: "SYS_ADMIN"}
+
+type c04CapHdr struct {
+	Version uint32
+	Pid     int32
+}
+type c04CapData struct{ Eff, Prm, Inh uint32 }
+
+// c04DropEffective clears the given capabilities in the calling thread's effective set and returns the function that
+// restores the previous sets. The caller holds the OS thread.
+func c04DropEffective(caps []int) (func() error, error) {
+	hdr := c04CapHdr{Version: 0x20080522}
+	var old [2]c04CapData
+	if _, _, e := syscall.RawSyscall(syscall.SYS_CAPGET, uintptr(unsafe.Pointer(&hdr)), uintptr(unsafe.Pointer(&old[0])), 0); e != 0 {
+		return nil, e
+	}
+	nw := old
+	for _, c := range caps {
+		nw[c/32].Eff &^= 1 << uint(c%32)
+	}
+	if _, _, e := syscall.RawSyscall(syscall.SYS_CAPSET, uintptr(unsafe.Pointer(&hdr)), uintptr(unsafe.Pointer(&nw[0])), 0); e != 0 {
+		return nil, e
+	}
+	return func() error {
+		if _, _, e := syscall.RawSyscall(syscall.SYS_CAPSET, uintptr(unsafe.Pointer(&hdr)), uintptr(unsafe.Pointer(&old[0])), 0); e != 0 {
+			return e
+		}
+		return nil
+	}, nil
 }
 
 var c04NSFlag = map[string]uintptr{"user": unix.CLONE_NEWUSER, "pid": unix.CLONE_NEWPID, "mnt": unix.CLONE_NEWNS, "uts": unix.CLONE_NEWUTS,
@@ -93,6 +129,16 @@ func c04GenRandom(rt *rapid.T) c04Case {
 		Names:      rapid.Bool().Draw(rt, "names"),
 		WorkDir:    rapid.Bool().Draw(rt, "workdir"),
 		CgroupFd:   rapid.IntRange(0, 3).Draw(rt, "cgroupfd") == 0,
+	}
+	switch rapid.IntRange(0, 9).Draw(rt, "launchercaps") {
+	case 0, 1:
+		c.LauncherDrop = []int{8}
+	case 2:
+		for _, k := range []int{1, 6, 7, 8, 18, 21} {
+			if rapid.Bool().Draw(rt, "drop-"+c04Caps[k]) {
+				c.LauncherDrop = append(c.LauncherDrop, k)
+			}
+		}
 	}
 	for _, k := range c04NSKinds {
 		if rapid.IntRange(0, 2).Draw(rt, "ns-"+k) == 0 {
@@ -215,7 +261,23 @@ func c04Launch(c c04Case, dir string) (*c04Obs, error) {
 	obs := &c04Obs{}
 	runtime.LockOSThread()
 	defer runtime.UnlockOSThread()
+	var restore func() error
+	if len(c.LauncherDrop) > 0 {
+		if restore, err = c04DropEffective(c.LauncherDrop); err != nil {
+			rp.finish()
+			return nil, vh.Infraf("capset: %v", err)
+		}
+	}
 	pid, err := r.Start()
+	if restore != nil {
+		if rerr := restore(); rerr != nil {
+			if err == nil {
+				syscall.Kill(pid, syscall.SIGKILL)
+			}
+			rp.finish()
+			return nil, vh.Infraf("restoring the launcher's capabilities: %v", rerr)
+		}
+	}
 	if err != nil {
 		rp.finish()
 		obs.startErr, obs.refused = err, true
@@ -247,10 +309,29 @@ func c04Launch(c c04Case, dir string) (*c04Obs, error) {
 		}
 		return ws, fmt.Errorf("no stop within 10s")
 	}
+	// with a trimmed launcher a child that Start() already handed over (ptrace / stop configurations return before the
+	// credential and capability steps) can still fail one of those steps: it exits without ever running the program
+	refusedLate := func(ws syscall.WaitStatus) bool {
+		if len(c.LauncherDrop) == 0 || !(ws.Exited() || ws.Signaled()) {
+			return false
+		}
+		rp.pw.Close() // the child's copy went with the child
+		select {
+		case <-rp.done:
+		case <-time.After(5 * time.Second):
+			return false
+		}
+		return len(rp.buf) == 0
+	}
 	stopFirst := c.StopBefore || (c.Seccomp && c.Ptrace)
 	tracedEarly := c.Ptrace && c.Seccomp
 	if stopFirst {
 		ws, err := waitStop()
+		if err == nil && refusedLate(ws) {
+			rp.finish()
+			obs.startErr, obs.refused = fmt.Errorf("child exited before exec (wait status %#x)", uint32(ws)), true
+			return obs, nil
+		}
 		if err != nil || !ws.Stopped() {
 			rp.finish()
 			return nil, vh.Violf("C04:no-stop", "expected the pre-seccomp stop: ws=%#x err=%v; %+v", uint32(ws), err, c)
@@ -267,6 +348,11 @@ func c04Launch(c c04Case, dir string) (*c04Obs, error) {
 	if c.Ptrace && !c.Seccomp {
 		// PTRACE_TRACEME right before execve: the exec reports a SIGTRAP stop
 		ws, err := waitStop()
+		if err == nil && refusedLate(ws) {
+			rp.finish()
+			obs.startErr, obs.refused = fmt.Errorf("child exited before exec (wait status %#x)", uint32(ws)), true
+			return obs, nil
+		}
 		if err != nil || !ws.Stopped() || ws.StopSignal() != syscall.SIGTRAP {
 			rp.finish()
 			return nil, vh.Violf("C04:no-exec-trap", "expected the exec SIGTRAP of a traced child: ws=%#x err=%v; %+v", uint32(ws), err, c)
@@ -289,6 +375,19 @@ func c04Launch(c c04Case, dir string) (*c04Obs, error) {
 		_ = st
 		if sysc, err := os.ReadFile(fmt.Sprintf("/proc/%d/syscall", pid)); err == nil && strings.HasPrefix(string(sysc), "0 0x4 ") {
 			break
+		}
+		if len(c.LauncherDrop) > 0 {
+			var ws syscall.WaitStatus
+			if p, _ := syscall.Wait4(pid, &ws, syscall.WNOHANG, nil); p == pid {
+				if refusedLate(ws) {
+					rp.finish()
+					obs.startErr, obs.refused = fmt.Errorf("child exited before exec (wait status %#x)", uint32(ws)), true
+					return obs, nil
+				}
+				rp.pr.Close()
+				<-rp.done
+				return nil, vh.Violf("C04:target-not-running", "the target ended before its wait point (wait status %#x); report so far %q; %+v", uint32(ws), string(rp.buf), c)
+			}
 		}
 		if time.Now().After(deadline) {
 			rp.pr.Close()
@@ -451,6 +550,9 @@ func c04Run(c c04Case, dir string, own map[string]string, rec *vh.Recorder) erro
 	nt := nopts >= 3 && (c.Cred != "none" || c.DropCaps || c.Seccomp)
 	variant := fmt.Sprintf("copy(ptrace=%v,seccomp=%v,late=%v,sync=%v)", c.Ptrace, c.Seccomp, c.LateCgroup, c.Sync)
 	if o.refused {
+		if len(c.LauncherDrop) > 0 {
+			rec.Class("launcher-effective-set-trimmed:refused", 1)
+		}
 		rec.Class("refused-by-kernel:"+o.startErr.Error(), 1)
 		rec.Case(c, false, "refused")
 		return nil
@@ -458,7 +560,11 @@ func c04Run(c c04Case, dir string, own map[string]string, rec *vh.Recorder) erro
 	if err := c04Check(c, o, own, dir); err != nil {
 		return err
 	}
-	rec.Case(c, nt, variant, "cred="+c.Cred, fmt.Sprintf("dropcaps=%v", c.DropCaps))
+	classes := []string{variant, "cred=" + c.Cred, fmt.Sprintf("dropcaps=%v", c.DropCaps)}
+	if len(c.LauncherDrop) > 0 {
+		classes = append(classes, "launcher-effective-set-trimmed:started")
+	}
+	rec.Case(c, nt, classes...)
 	if nt && rec.WantSample() {
 		rec.Sample(c)
 	}
@@ -475,7 +581,7 @@ func c04OwnNS() map[string]string {
 	return m
 }
 
-const c04Rule = "case = forkexec.Runner option set: Credential in {nil, uid/gid/groups, NoSetGroups, uid 0} x DropCaps x NoNewPrivs x Seccomp x Ptrace x StopBeforeSeccomp x SyncFunc x UnshareCgroupAfterSync x subsets of {user,pid,mnt,uts,ipc,net,cgroup} namespaces x pivot root+mounts x host/domain name x work dir x clone-into-cgroup2; the lattice test enumerates all 16 combinations of the four flags selecting the code copy x {Credential, DropCaps, both, neither} x {no ns, user ns, all ns}; oracle = probe self-report + /proc/<pid>/{status,ns,cgroup}; non-trivial = >=3 options incl. one of Credential/DropCaps/Seccomp"
+const c04Rule = "case = forkexec.Runner option set: Credential in {nil, uid/gid/groups, NoSetGroups, uid 0} x DropCaps x NoNewPrivs x Seccomp x Ptrace x StopBeforeSeccomp x SyncFunc x UnshareCgroupAfterSync x subsets of {user,pid,mnt,uts,ipc,net,cgroup} namespaces x pivot root+mounts x host/domain name x work dir x clone-into-cgroup2 x capabilities missing from the launcher's effective set {none, SETPCAP, SETUID, random subsets}; the lattice test enumerates all 16 combinations of the four flags selecting the code copy x {Credential, DropCaps, both, neither} x {no ns, user ns, all ns}; oracle = probe self-report + /proc/<pid>/{status,ns,cgroup}; non-trivial = >=3 options incl. one of Credential/DropCaps/Seccomp"
 
 func TestC04Lattice(t *testing.T) {
 	rec := vh.NewRecorder(t, "C04", "exploration", c04Rule)
@@ -513,6 +619,19 @@ func TestC04Lattice(t *testing.T) {
 						}
 					}
 					n++
+					if extra == 0 && (cd.cred != "none" || cd.drop) {
+						// the same cell started by a launcher whose effective set lacks CAP_SETPCAP (resp. CAP_SETUID)
+						for _, ld := range [][]int{{8}, {7}} {
+							c.LauncherDrop = ld
+							if err := c04Run(c, dir, own, rec); err != nil {
+								vh.Report(t, rec, c, err)
+								if _, infra := err.(vh.Infra); infra {
+									return
+								}
+							}
+							n++
+						}
+					}
 				}
 			}
 		}
